@@ -9,5 +9,8 @@ CONSTANTS
   Offs <- OffsQ
   Needles <- NeedlesQ
   Fns <- FnsAll
+  Spell <- SpellQ
 INVARIANT Laws
+INVARIANT NumeralsDenote
+INVARIANT SpellingDoesNotMatter
 CHECK_DEADLOCK FALSE
